@@ -334,6 +334,7 @@ class IdsLeg(object):
             k0 = next((kk for kk in want if kk + "_1" in want), None)
             if k0 is not None:
                 line1 = lines[want.index(k0 + "_1")]
+                stale = db[k0]
                 db.delete(k0, make_backup=False)
                 handles = [db]
                 if case.get("file_db") and 0 < (case.get("split") or 0) < len(recs):
@@ -345,6 +346,13 @@ class IdsLeg(object):
                         pass
                     else:
                         return Failure("db[%r] after delete(%r) returned %r" % (k0, k0, str(f)), sig={"kind": "absent-found", "after": "delete"})
+                    try:
+                        f = h[stale]  # a Feature fetched before the delete, used as the key
+                    except FeatureNotFoundError:
+                        pass
+                    else:
+                        return Failure("db[<Feature %r fetched before it was deleted>] returned %r" % (k0, str(f)),
+                                       sig={"kind": "absent-found", "after": "delete", "key": "feature"})
                     if str(h[k0 + "_1"]) != line1:
                         return Failure("db[%r] after delete(%r) returned %r, stored %r" % (k0 + "_1", k0, str(h[k0 + "_1"]), line1),
                                        sig={"kind": "lookup"})
